@@ -1,9 +1,10 @@
 import QbeeModel.Props.C07
+import QbeeModel.Lemmas.StmtDepth
 /-
   C10  ON ERROR, RESUME and RESUME NEXT follow statement-level semantics.  Property theorems only.
   (Model/Tick.lean is the code AS REPAIRED: trapped_addr is recorded for divisions by zero; RESUME / RESUME NEXT
-  clear error_handler_active.)  The clause 'none of its partial results remain' is NOT a theorem: it is false on the
-  current tree (known finding: the operand stack is not restored).
+  clear error_handler_active.)  The clause 'none of its partial results remain' is about the operand stack: it was false
+  (the former known finding) and is proved below for the bookkeeping of Model/StmtDepth.lean (as repaired).
 -/
 namespace Qbee.Tick
 
@@ -74,3 +75,133 @@ theorem on_error_goto_0_restores (codeLen : Nat) (s : St) (size code sz : Nat) (
   · unfold tick; simp [hi, trapDispatch, hna, endCheck]
 
 end Qbee.Tick
+
+namespace Qbee.StmtDepth
+
+/-- at a statement boundary the operand stack of a routine is at the depth it had when the routine was entered plus one
+    entry per active GOSUB (the formula of C03), which is the depth a handled error cuts it back to -/
+theorem boundary_depth_formula (s : St) (f : Frame) (n : Nat) (h : AtBoundary s f n) : s.depth = f.base + 1 + n := by
+  rw [h.2, stmtDepth_consec f n h.1]
+
+/-- GOSUB at a statement boundary leaves the routine it enters at a statement boundary, one GOSUB deeper -/
+theorem gosub_keeps_boundary (s : St) (f : Frame) (rest : List Frame) (n : Nat) (hf : s.frames = f :: rest)
+    (h : AtBoundary s f n) :
+    ∃ f', (step s .gosub).frames = f' :: rest ∧ f'.base = f.base ∧ AtBoundary (step s .gosub) f' (n + 1) := by
+  have hd := boundary_depth_formula s f n h
+  refine ⟨{ f with marks := s.depth :: f.marks }, by simp [step, hf], rfl, ?_, ?_⟩
+  · simp only [consec, h.1, hd]
+    congr 1
+    omega
+  · simp [step, hf, stmtDepth]
+
+/-- RETURN at a statement boundary (it pops the innermost GOSUB address) leaves a statement boundary, one GOSUB less -/
+theorem return_keeps_boundary (s : St) (f : Frame) (rest : List Frame) (n : Nat) (hf : s.frames = f :: rest)
+    (h : AtBoundary s f (n + 1)) :
+    ∃ f', (step s (.instr 1 0)).frames = f' :: rest ∧ f'.base = f.base ∧ AtBoundary (step s (.instr 1 0)) f' n := by
+  have hd := boundary_depth_formula s f (n + 1) h
+  have hp : prune (s.depth - 1) f.marks = consec f.base n := by
+    rw [h.1, hd]
+    have : f.base + 1 + (n + 1) - 1 = f.base + n + 1 := by omega
+    rw [this]
+    exact prune_consec_succ f.base n
+  refine ⟨f.pruned (s.depth - 1), by simp [step, hf, pruneHead], rfl, ?_, ?_⟩
+  · simpa [Frame.pruned] using hp
+  · have h2 : stmtDepth (f.pruned (s.depth - 1)) = f.base + 1 + n :=
+      stmtDepth_consec (f.pruned (s.depth - 1)) n (by simpa [Frame.pruned] using hp)
+    simp only [step, h2]
+    omega
+
+/-- the instructions of a statement that never reach below the statement's starting depth leave the frames as they are -/
+theorem body_keeps_frames (f : Frame) (rest : List Frame) (L : Nat) (hm : ∀ i ∈ f.marks, i < L) :
+    ∀ (body : List (Nat × Nat)) (s : St), s.frames = f :: rest → staysAbove L s.depth body = true →
+      (run s (body.map fun pq => Ev.instr pq.1 pq.2)).frames = f :: rest ∧
+      L ≤ (run s (body.map fun pq => Ev.instr pq.1 pq.2)).depth ∨ body = [] ∧ (run s []).frames = f :: rest
+  | [], s, hf, _ => Or.inr ⟨rfl, by simpa [run_nil] using hf⟩
+  | (p, q) :: r, s, hf, ha => by
+    simp only [staysAbove, Bool.and_eq_true, decide_eq_true_eq] at ha
+    have hfr : (step s (.instr p q)).frames = f :: rest := by
+      simp only [step, hf, pruneHead, Frame.pruned]
+      rw [prune_all _ _ (fun i hi => by have := hm i hi; omega)]
+    have hdp : (step s (.instr p q)).depth = s.depth - p + q := rfl
+    rw [List.map_cons, run_cons]
+    rcases body_keeps_frames f rest L hm r (step s (.instr p q)) hfr (by rw [hdp]; exact ha.2) with h | ⟨rfl, h⟩
+    · exact Or.inl h
+    · refine Or.inl ⟨by simpa [run_nil] using hfr, ?_⟩
+      simp only [List.map_nil, run_nil, hdp]
+      omega
+
+/-- **none of its partial results remain (handled in place).**  A statement that starts at a statement boundary, executes
+    any instructions that do not reach below its starting depth, and fails under ON ERROR RESUME NEXT leaves the stack and
+    the frames exactly as they were when it started: the next statement starts at a statement boundary again -/
+theorem failed_statement_leaves_nothing (s : St) (f : Frame) (rest : List Frame) (n : Nat) (hf : s.frames = f :: rest)
+    (h : AtBoundary s f n) (body : List (Nat × Nat)) (ha : staysAbove s.depth s.depth body = true) :
+    run s ((body.map fun pq => Ev.instr pq.1 pq.2) ++ [.handledNext]) = s := by
+  have hd := boundary_depth_formula s f n h
+  have hm : ∀ i ∈ f.marks, i < s.depth := by
+    intro i hi
+    rw [h.1] at hi
+    have := consec_lt f.base n i hi
+    omega
+  rw [run_append]
+  have key : ∀ S : St, S.frames = f :: rest → s.depth ≤ S.depth → run S [.handledNext] = s := by
+    intro S hfr hge
+    cases s with
+    | mk sd sf =>
+      cases S with
+      | mk d fs =>
+        have h2 : sd = stmtDepth f := h.2
+        simp only at hf hfr hge
+        subst hf
+        subst hfr
+        simp only [run, List.foldl, step, St.mk.injEq, and_true]
+        omega
+  rcases body_keeps_frames f rest s.depth hm body s hf ha with ⟨hfr, hge⟩ | ⟨rfl, _⟩
+  · exact key _ hfr hge
+  · exact key s hf (Nat.le_refl _)
+
+/-- **none of its partial results remain (module-level handler).**  Whatever procedures are active when the error happens
+    (their frames lie above the depth the module-level statement started at), the handler starts on the module-level frame
+    alone, at a statement boundary: exactly where the failed module-level statement started -/
+theorem handler_starts_at_boundary (s : St) (pre : List Frame) (m : Frame) (n : Nat) (hf : s.frames = pre ++ [m])
+    (hm : m.marks = consec m.base n) (hd : stmtDepth m ≤ s.depth) (hb : ∀ f ∈ pre, stmtDepth m ≤ f.base) :
+    (step s .handledGoto).frames = [m] ∧ AtBoundary (step s .handledGoto) m n := by
+  have h2 := unwind_frames pre m s.depth
+  have h3 := unwind_ge (stmtDepth m) pre m s.depth hd hb
+  have hsd := stmtDepth_consec m n hm
+  simp only [step, hf]
+  generalize unwind s.depth (pre ++ [m]) = u at h2 h3 ⊢
+  obtain ⟨d, fs⟩ := u
+  simp only at h2 h3 ⊢
+  subst h2
+  have hp : m.pruned d = m := by
+    cases m with
+    | mk base marks =>
+      simp only [Frame.pruned, Frame.mk.injEq, true_and]
+      simp only at hm hsd h3
+      rw [hm]
+      exact prune_consec_ge base n d (by omega)
+  simp only [hp]
+  refine ⟨trivial, hm, ?_⟩
+  show min d (stmtDepth m) = stmtDepth m
+  omega
+
+/-- before the repair a handled error changed nothing: under ON ERROR RESUME NEXT the partial results of every failing
+    statement stayed (they piled up in a loop; a RETURN took one for its address) -/
+theorem partial_results_stayed_before_repair (s : St) : stepOld s .handledNext = s := rfl
+
+/-- the premises are satisfiable and the conclusions are not trivial: inside one GOSUB at module level (depth 2) a
+    statement pushes three operands, consumes two, pushes one and fails with two entries of its own on the stack -/
+example :
+    AtBoundary { depth := 2, frames := [{ base := 0, marks := [1] }] } { base := 0, marks := [1] } 1 ∧
+    staysAbove 2 2 [(0, 3), (2, 0), (0, 1)] = true ∧
+    (run { depth := 2, frames := [{ base := 0, marks := [1] }] }
+      ([(0, 3), (2, 0), (0, 1)].map (fun pq => Ev.instr pq.1 pq.2))).depth = 4 :=
+  ⟨⟨rfl, rfl⟩, by decide, by decide⟩
+
+/-- ... and an error two procedures deep, with the module-level statement inside a GOSUB routine -/
+example :
+    (step { depth := 9, frames := [{ base := 7, marks := [] }, { base := 4, marks := [5] }, { base := 0, marks := [1] }] }
+      .handledGoto) = { depth := 2, frames := [{ base := 0, marks := [1] }] } := by
+  decide
+
+end Qbee.StmtDepth
